@@ -88,6 +88,14 @@ parser { "a"; h(); case { "b" -> { m = 1; } else -> {} } }"""),
     ("feat-final-catch", [], """out int m = 0; hook h;
 parser { "a"; h(); try { "bc"; m = 1; } catch {} }"""),
 ]
+# string constants that contain C trigraph sequences and other characters with a meaning inside a C literal
+FEATURES += [
+    ("feat-trigraph", [], """out str[24] s = "??)a??!b??'"; out str[24] t; hook h;
+parser { "a"; s = "x??(??=??/??<??>??-"; h(); "b"; t = "%d\\n??/"; s = "?" ; h(); "c"; t = "a??b"; }"""),
+    # an action-only conditional among the start actions that mentions $last: there is no byte yet (rejected, never emitted)
+    ("feat-start-last-cond", [], """out int n = 0;
+parser { if $last == 5 { n = 1; } elif n == 0 { n = 2; } "a"; }"""),
+]
 # machines with exactly 255 / 256 / 257 states (the width of the state member; the parked state of a failed end() is one more)
 for _n in (253, 254, 255):
     FEATURES.append(("feat-states-%d" % (_n + 2), ["-feof-support"], 'out int m = 0; hook h;\nparser { "%s"; m = 1; h(); }' % ("ab" * (_n // 2) + "c" * (_n % 2))))
